@@ -107,6 +107,21 @@ func storm(id string, seed uint64) runner.Result {
 			gates = append(gates, rg.Pair.B.GateWriteIdx(idx, simnet.When(r.Intn(2))))
 		}
 	}
+	// sometimes one write of one endpoint fails in passing (an expired write deadline: the error
+	// calls itself a timeout), with none or some of its bytes accepted; the transport works again afterwards
+	transient := ""
+	if r.Intn(6) == 0 {
+		end, kind := rg.Pair.A, simnet.FaultWriteErrOnly
+		transient = "client"
+		if r.Intn(2) == 0 {
+			end, transient = rg.Pair.B, "server"
+		}
+		if r.Intn(3) != 0 {
+			kind = simnet.FaultWritePartialOnly
+		}
+		end.SetFault(simnet.Fault{Kind: kind, Offset: int64(20 + r.Intn(6000)), Temporary: r.Intn(4) != 0})
+		transient += fmt.Sprintf(" write fault kind=%d", kind)
+	}
 	if r.Intn(2) == 0 {
 		rg.Dir.Perturb(seed, 3)
 	}
@@ -220,7 +235,7 @@ func storm(id string, seed uint64) runner.Result {
 	}
 	st, _ := census.QuiesceOr(driver.Done(), rig.Watchdog)
 	fails := append(prog.WireFindings(rg.Pair.A), prog.WireFindings(rg.Pair.B)...)
-	hist := fmt.Sprintf("%s rpcs=%d parked-writes-released=%d", cfg.Desc, nrpc, released)
+	hist := fmt.Sprintf("%s rpcs=%d parked-writes-released=%d %s", cfg.Desc, nrpc, released, transient)
 	if len(fails) > 0 {
 		k := strings.Map(func(r rune) rune {
 			if r >= '0' && r <= '9' {
